@@ -243,7 +243,8 @@ def run(ctx):
                  "reload_config is not serialised (%s): two reloads that overlap - the autoreload task and an admin RELOAD, two admin clients - can publish in the wrong order: CONFIG is the newer file, POOLS are the pools of the older "
                  "one, and every later reload of the newer file sees `no change`" % ("no lock of a static tokio Mutex dominates parse and from_config" if not ok_l else "the guard is dropped before the pools are built"))
     rcallers = F.callers_of("pgcat::config::reload_config")
-    r2.check(set(rcallers) <= {"bin:pgcat::main::{closure#1}", "bin:pgcat::main::{closure#1}::{closure#2}", "pgcat::admin::reload::{closure#0}"}, "reload-callers", "reload_config is called by SIGHUP, autoreload and admin RELOAD only", "reload_config callers: %s" % rcallers)
+    # (main's accept loop, or a task it spawns - which closure of main a task is, is numbering, not meaning)
+    r2.check(all(re.match(r"^bin:pgcat::main::\{closure#1\}(::\{closure#\d+\})?$", n_) or n_ == "pgcat::admin::reload::{closure#0}" for n_ in rcallers) and bool(rcallers), "reload-callers", "reload_config is called by SIGHUP, autoreload and admin RELOAD only", "reload_config callers: %s" % rcallers)
 
     # ---------------- R3
     r3 = ctx.rule("C14-R3", "a pool whose definition hash is unchanged is carried over (clone of the live pool) and is never rebuilt in that reload", floor=2)
@@ -383,7 +384,7 @@ def run(ctx):
         if gpf:
             r4.check("pgcat::pool::POOLS" in {o.what for c in gpf.calls("re:ArcSwapAny.*::load$") for o in origins(gpf, c.args[0]) if o.kind == "static"}, "get_pool-reads-POOLS", "pool::get_pool reads the POOLS static", "pool::get_pool does not read POOLS")
     # ---------------- R5 cross reference
-    r5 = ctx.rule("C14-R5", "reload_config runs inline in main's select loop (SIGHUP arm): configuration-derived panics in from_config are C15 obligations", floor=1, armed=False)
+    r5 = ctx.rule("C14-R5", "reload_config runs in tasks of its own (SIGHUP arm, autoreload; since D74 never inside main's select loop): configuration-derived panics in from_config are C15 obligations", floor=1, armed=False)
     m = F.body("bin:pgcat::main::{closure#1}")
     if m:
-        r5.check(bool(m.calls("pgcat::config::reload_config")), "inline-reload", "main's loop awaits reload_config inline (see C15 for the panic obligations)", "reload_config is no longer awaited inline in main")
+        r5.check(bool([n_ for n_ in rcallers if n_.startswith("bin:pgcat::main::{closure#1}::")]), "reload-in-tasks", "main spawns tasks that call reload_config (see C15 for the panic obligations)", "no task of main calls reload_config")
